@@ -261,14 +261,17 @@ theorem allowed_noCreate (r : Req) (hr : r.caller = none) (c : HCall) (h : Allow
   · show c.creates = false
     cases r <;> simp only [Req.caller] at hr <;> simp only [DirectCall] at h
     all_goals first
-      | cases hr
+      | (cases hr; done)
       | exact open_noCreate c h
-      | (obtain ⟨_, rfl⟩ := h; rfl)
-      | (obtain ⟨_, _, rfl⟩ := h; rfl)
-      | (rcases h with ⟨_, rfl⟩ | h <;> first | rfl | exact open_noCreate c h)
+      | (obtain ⟨_, rfl⟩ := h; rfl; done)
+      | (obtain ⟨_, _, rfl⟩ := h; rfl; done)
+      | (rcases h with ⟨_, rfl⟩ | h2
+         · rfl
+         · exact open_noCreate c h2)
       | skip
     -- setattr
-    rcases h with ⟨_, _, rfl | rfl⟩ | ⟨_, _, rfl⟩ | ⟨_, ⟨_, rfl⟩ | h⟩ | ⟨_, _, rfl | rfl⟩ <;> first | rfl | exact open_noCreate c h
+    rcases h with ⟨_, _, rfl | rfl⟩ | ⟨_, _, rfl⟩ | ⟨_, ⟨_, rfl⟩ | h⟩ | ⟨_, _, rfl | rfl⟩ <;>
+      first | rfl | exact open_noCreate c ‹IsOpenCall c›
 
 /-- **one request**, from the root state: the objects it creates are the caller's; a request that
     is not mkdir / mknod / symlink / create creates nothing -/
@@ -285,12 +288,13 @@ theorem reqOwned {H : HostOps σ} [L : HostLaws H] [O : OwnerLaws H] (cfg : Cfg)
   | some ctx =>
     simp only []
     apply newOwned_of_asCaller
-    cases r <;> simp only [Req.caller] at hc <;> first | cases hc | skip
-    all_goals (cases hc; simp only [step, handle])
-    · exact steps_symlink ..
-    · exact steps_mknod ..
-    · exact steps_mkdir ..
-    · exact steps_create ..
+    cases r <;> simp only [Req.caller, Option.some.injEq] at hc
+    all_goals first | (cases hc; done) | skip
+    all_goals (subst hc; simp only [step, handle])
+    · exact steps_symlink _ _ _ _ _ _ _ hroot
+    · exact steps_mknod _ _ _ _ _ _ _ _ _ hroot
+    · exact steps_mkdir _ _ _ _ _ _ _ _ hroot
+    · exact steps_create _ _ _ _ _ _ _ _ _ _ hroot
 
 /-- `ReqOwned` along a whole history -/
 def HistOwned (H : HostOps σ) (cfg : Cfg) : PtState → σ → List Req → Prop
